@@ -238,4 +238,34 @@ CHECKS["C10"] = {
     "engine": "tlc+vh-derive",
 }
 
+CHECKS["C17"] = {
+    "category": "exploration",
+    "text": "spec/Serde.tla describes serde types by descriptors over the serde data model and gives the representation documented for the bridge "
+            "(SerEnc: structs as maps keyed by field name, unit variants as text, other variants as one-entry maps, None as null, unit as the empty "
+            "array, unknown-length sequences and maps indefinite; internally / adjacently tagged, untagged and flattened forms as serde_derive lowers "
+            "them), plus the alternative inputs a deserialiser of that shape must accept (wider heads, indefinite bodies, unknown fields). One "
+            "description (gen/serde2rs.py) generates ~85 Rust types with the real serde derives and their descriptors. TLC checks that every "
+            "representation is one well-formed item and emits (type, bytes, value) cases that the real bridge must deserialise to that value, consume "
+            "exactly and serialise back to the reference; recorded round trips and random re-framings of random values are validated by TLC.",
+    "design_ref": "DESIGN.md section 6, C17",
+    "note": "Exploration-grade: the type family is fixed (generated), values are boundaries + sampling. Known findings: char and unit inside content "
+            "that serde buffers (flatten, internally tagged, untagged) do not deserialise.",
+    "technique": "TLA+ reference semantics of the bridge's representation (Serde/SerdeTable) + TLC case emission and replay on serde-derived types + trace validation of sampled round trips",
+    "engine": "tlc+vh",
+}
+
+CHECKS["C18"] = {
+    "category": "exploration",
+    "text": "spec/Serde.tla embeds the built-in types both codecs know (Embed: 73 instantiations of integers, bool, char, floats, strings, unit, "
+            "options, sequences, fixed arrays, tuples, maps and compositions) into the serde model; TLC proves on boundary values that the bridge's "
+            "documented representation equals the native reference encoding byte for byte, and emits the common encoding and two re-framings of "
+            "every value, which are replayed through both real decoders. Recorded events of random values (native bytes, bridge bytes, each decoded "
+            "by the other side, a random re-framing decoded by both) are validated by TLC: identical bytes, the same value with exact consumption in "
+            "both cross directions, and for re-framings that value or an error on each side.",
+    "design_ref": "DESIGN.md section 6, C18",
+    "note": "Exploration-grade: boundary values + sampling per instantiation. Hash collections are compared as bags.",
+    "technique": "TLA+ embedding of the shared types into the serde model (Serde!Embed) with an agreement invariant checked by TLC + replay through both decoders + trace validation",
+    "engine": "tlc+vh",
+}
+
 NOT_YET = "check not built yet in this round (planned in DESIGN.md section 10); not claimed until it exists"
